@@ -190,7 +190,7 @@ pub fn gen_set(r: &mut Rng, c: SetCfg) -> Vec<TFile> {
             own.push((orig, worst));
             next_free = next_free.max(orig + worst) + r.below(0x80) as u32;
         }
-        let opts = FileOpts { id: i, blocks, shared: fr, exotic: c.exotic, crlf: r.chance(1, 3), ext_place: r.below(4) as u8, max_blkw: 4, pin_first: false, huge: None, pad_comment: 0, plain_head: plain_set };
+        let opts = FileOpts { id: i, blocks, shared: fr, exotic: c.exotic, crlf: r.chance(1, 3), ext_place: r.below(4) as u8, max_blkw: 4, pin_first: false, huge: None, pad_comment: 0, plain_head: plain_set, abut: c.exotic };
         let mut opts = opts;
         if i == 0 && r.chance(1, 30) {
             // one block of file 0 (the highest one, so that nothing of this file lies behind it) ends with a huge .blkw
